@@ -167,6 +167,7 @@ def snap_design(dm):
             e["slices"] = {k: (v.start, v.stop) for k, v in M.slices.items()}
             e["labels"] = {k: list(t.labels) for k, t in M.terms.items()}
             e["sub"] = {k: dig(M[k]) for k in M.terms}
+            e["term_data"] = {k: dig(getattr(t, "data", None)) for k, t in M.terms.items()}  # what each term holds for its own frame
         if nm == "common":
             e["cols"] = list(M.as_dataframe().columns)
         s[nm] = e
